@@ -117,6 +117,56 @@ pub fn d5_manual() -> OptionParser<D5> {
     construct!(D5 { r#type, r#loop, very_long_name_here, z }).to_options()
 }
 
+// ---- unusual identifiers: consecutive / leading underscores, digits ---------------------------------
+
+#[derive(Debug, Clone, PartialEq, Bpaf)]
+#[bpaf(options)]
+#[allow(non_snake_case)]
+pub struct D6 {
+    dry__run: bool,
+    _quiet: bool,
+    http2_port: Option<u32>,
+}
+
+pub fn d6_manual() -> OptionParser<D6> {
+    let dry__run = long("dry--run").switch();
+    let _quiet = long("-quiet").switch();
+    let http2_port = long("http2-port").argument::<u32>("ARG").optional();
+    construct!(D6 { dry__run, _quiet, http2_port }).to_options()
+}
+
+// ---- variant names with acronyms and digits: every capital starts a new word ---------------------------
+
+#[derive(Debug, Clone, PartialEq, Bpaf)]
+#[bpaf(options)]
+pub enum D7 {
+    HTTPServer,
+    GetV2 {
+        max_items: u32,
+    },
+    #[bpaf(command)]
+    RunTLSCheck {
+        deep: bool,
+    },
+}
+
+fn d7_get() -> impl Parser<D7> {
+    let max_items = long("max-items").argument::<u32>("ARG");
+    construct!(D7::GetV2 { max_items })
+}
+
+fn d7_run() -> impl Parser<D7> {
+    let deep = long("deep").switch();
+    construct!(D7::RunTLSCheck { deep }).to_options().command("run-t-l-s-check")
+}
+
+pub fn d7_manual() -> OptionParser<D7> {
+    let http = long("h-t-t-p-server").req_flag(D7::HTTPServer);
+    let get = d7_get();
+    let run = d7_run();
+    construct!([http, get, run]).to_options()
+}
+
 macro_rules! dcorpus {
     ($($name:literal => $e:expr),* $(,)?) => {
         pub fn run_derived(name: &str, args: &[std::ffi::OsString]) -> Option<String> {
@@ -134,4 +184,6 @@ dcorpus!(
     "d3_derive" => d3(), "d3_manual" => d3_manual(),
     "d4_derive" => d4(), "d4_manual" => d4_manual(),
     "d5_derive" => d5(), "d5_manual" => d5_manual(),
+    "d6_derive" => d6(), "d6_manual" => d6_manual(),
+    "d7_derive" => d7(), "d7_manual" => d7_manual(),
 );
